@@ -26,7 +26,7 @@ from mirflow import Ref, Unsupported, const
 from native import NativeRun
 from c18_str import HEXV, StrFlow, fmt_models, rust_str_lit
 
-COL0 = 0          # the opening quote is the first character of the line
+COL0 = 3          # the opening quote stands at column 3 (after `a =`) of the first line
 
 
 def models(vidx_interp):
@@ -163,6 +163,74 @@ def models(vidx_interp):
             return ("int", len(v[1]))
         raise Unsupported("chars().count() of %r" % (v,))
 
+    def closure_of(flow, callee):
+        mm = re.search(r"\{closure@([^}]*)\}", callee)
+        if not mm:
+            raise Unsupported("closure type in " + callee)
+        loc = mm.group(1).strip()
+        cf = [f for f in flow.fns.values() if "{closure#" in f.short and f.params and loc in f.params[0][1]]
+        if len({f.name for f in cf}) != 1:
+            raise Unsupported("closure at %s not found uniquely" % loc)
+        return cf[0]
+
+    def index_range(flow, P, callee, args):
+        v = flow.deref_all(P, args[0])
+        r = flow.deref_all(P, args[1])
+        if not (isinstance(v, tuple) and v and v[0] == "vec") or not (isinstance(r, tuple) and r and r[0] == "agg" and len(r[2]) == 2 and all(flow.is_int(x) for x in r[2])):
+            raise Unsupported("index(%r, %r)" % (v, r))
+        a, b = r[2][0][1], r[2][1][1]
+        if a > b or b > len(v[1]):
+            P.calls.append(("PANIC:" + callee + " (range end out of bounds)", [], None))
+            return ("stop",)
+        return ("vec", list(v[1][a:b]))
+
+    def slice_iter(flow, P, callee, args):
+        v = flow.deref_all(P, args[0])
+        if not (isinstance(v, tuple) and v and v[0] == "vec"):
+            raise Unsupported("slice::iter(%r)" % (v,))
+        return ("sliceiter", list(v[1]))
+
+    def it_position(flow, P, callee, args):
+        it = flow.deref_all(P, args[0])
+        if not (isinstance(it, tuple) and it and it[0] == "sliceiter"):
+            raise Unsupported("position on %r" % (it,))
+        cf = closure_of(flow, callee)
+        ts = []
+        for x in it[1]:
+            r = flow.inline(P, cf, [args[1], x])
+            if isinstance(r, tuple) and r and r[0] == "fork":
+                raise Unsupported("closure with structured result")
+            ts.append(S.truth(flow, r))
+        alts = []
+        for i in range(len(ts)):
+            alts.append(([z3.Not(t) for t in ts[:i]] + [ts[i]], ("agg", "Option::Some", [("int", i)]), {}))
+        alts.append(([z3.Not(t) for t in ts], ("agg", "Option::None", []), {}))
+        return ("fork", alts)
+
+    def it_fold(flow, P, callee, args):
+        it = flow.deref_all(P, args[0])
+        if not (isinstance(it, tuple) and it and it[0] == "sliceiter"):
+            raise Unsupported("fold on %r" % (it,))
+        cf = closure_of(flow, callee)
+        acc = args[1]
+        for x in it[1]:
+            acc = flow.inline(P, cf, [args[2], acc, x])
+            if isinstance(acc, tuple) and acc and acc[0] == "fork":
+                raise Unsupported("fold closure returns on several paths")
+        return acc
+
+    def to_digit(flow, P, callee, args):
+        c = flow.deref_all(P, args[0])
+        if not flow.is_num(c) or not flow.is_int(args[1]) or args[1][1] != 16:
+            raise Unsupported("char::to_digit(%r, %r)" % (c, args[1]))
+        h = HEXV(flow.num(c))
+        can_some, can_none = flow.feasible(P.pc + [h >= 0]), flow.feasible(P.pc + [h < 0])
+        if can_some and not can_none:
+            return ("agg", "Option::Some", [("sint", h)])
+        if can_none and not can_some:
+            return ("agg", "Option::None", [])
+        return ("fork", [([h >= 0], ("agg", "Option::Some", [("sint", h)]), {}), ([h < 0], ("agg", "Option::None", []), {})])
+
     def token_new(flow, P, callee, args):
         return ("agg", "Token", [flow.deref_all(P, a) if isinstance(a, Ref) else a for a in args])
 
@@ -174,6 +242,9 @@ def models(vidx_interp):
             (r"^Vec::<.*>::len$", v_len), (r"^Vec::<.*>::push$", v_push),
             (r"<impl char>::is_ascii_hexdigit$", is_hex), (r"<impl u32>::from_str_radix$", from_str_radix), (r"<impl char>::from_u32$", from_u32),
             (r"<std::ops::Range<i32> as IntoIterator>::into_iter$", ident), (r"<std::ops::Range<i32> as Iterator>::next$", range_next),
+            (r"<Vec<.*> as Index<std::ops::Range<usize>>>::index$", index_range), (r"slice::<impl \[.*\]>::iter$", slice_iter),
+            (r"<std::slice::Iter<'_, .*> as Iterator>::position::<", it_position), (r"<std::slice::Iter<'_, .*> as Iterator>::fold::<", it_fold),
+            (r"<impl char>::to_digit$", to_digit),
             (r"CacheSet::<str>::get", cache_get), (r"str::<impl str>::chars$", deref), (r"<Chars<'_> as Iterator>::count$", chars_count),
             (r"^Token::new(?:_fake)?(?:::<.*>)?$", token_new), (r"<Token as Clone>::clone$", ident)] + fmt_models(items_of)
 
@@ -267,9 +338,14 @@ def run(tier, seed, only=None):
                         raise Unsupported("the lexer state after the call is not concrete: %r" % (L if not isinstance(L, tuple) else (L[2][ci], L[2][li]),))
                     consumed = L[2][ci][1] - 1 + 1            # characters after the opening quote, plus the quote itself
                     col_after = L[2][li][1]
-                    tcol = tok[2][3] if isinstance(tok, tuple) and tok[0] == "agg" and tok[1] == "Token" and len(tok[2]) >= 4 else None
-                    if col_after != COL0 + consumed or (tcol is not None and flow.is_int(tcol) and tcol[1] != COL0):
-                        bad_pos = bad_pos or ([mdl.eval(c, model_completion=True).as_long() for c in chars], consumed, col_after)
+                    is_tok = isinstance(tok, tuple) and tok[0] == "agg" and tok[1] == "Token" and len(tok[2]) >= 4
+                    tline, tcol = (tok[2][2], tok[2][3]) if is_tok else (None, None)
+                    line_after = L[2][fields.index("lineno_token_starts")]
+                    wrong_start = (tcol is not None and flow.is_int(tcol) and tcol[1] != COL0) or (tline is not None and flow.is_int(tline) and tline[1] != 1)
+                    same_line = flow.is_int(line_after) and line_after[1] == 0
+                    if wrong_start or (same_line and col_after != COL0 + consumed):
+                        bad_pos = bad_pos or ([mdl.eval(c, model_completion=True).as_long() for c in chars], consumed, col_after,
+                                              "the token is reported at line %s, column %s (it starts at line 1, column %d)" % (tline[1] if tline and flow.is_int(tline) else "?", tcol[1] if tcol and flow.is_int(tcol) else "?", COL0) if wrong_start else None)
                 obt["queries"] = flow.queries + npaths
                 obp["queries"] = npaths
                 obt["detail"] = {"paths": npaths, "paths that panic": npanic}
@@ -288,8 +364,9 @@ def run(tier, seed, only=None):
                 if bad_pos:
                     src = '"' + "".join(chr(v) for v in bad_pos[0])
                     obp["model"] = {"source": src, "source characters consumed": bad_pos[1], "column advanced by": bad_pos[2] - COL0}
-                    obp.update(verdict=VIOLATED, reason="after the literal %s (%d source characters) the lexer's column has advanced by %d: the tokens that follow on the line are reported at wrong columns" % (
-                        json.dumps(src), bad_pos[1], bad_pos[2] - COL0))
+                    obp.update(verdict=VIOLATED, reason=(bad_pos[3] + " for the literal " + json.dumps(src)) if bad_pos[3] else
+                               "after the literal %s (%d source characters) the lexer's column has advanced by %d: the tokens that follow on the line are reported at wrong columns" % (
+                                   json.dumps(src), bad_pos[1], bad_pos[2] - COL0))
                     drifts.append((obp, src))
                 elif nok == 0:
                     obp.update(verdict=HELD, nontrivial=False, reason="no path returns a token for %d character(s) before the end of the input (a literal needs its closing quote)" % k)
@@ -303,14 +380,14 @@ def run(tier, seed, only=None):
             nat = NativeRun(s, "erg_parser", "crates/erg_parser/lex.rs", helpers="""
     fn __lexcols(src: &str) -> String {
         match Lexer::from_str(src.to_string()).lex() {
-            Ok(ts) => ts.iter().map(|t| format!("{}@{}", t.content.chars().count(), t.col_begin)).collect::<Vec<_>>().join(","),
-            Err((ts, errs)) => format!("errors={} tokens={}", errs.len(), ts.iter().map(|t| format!("{}@{}", t.content.chars().count(), t.col_begin)).collect::<Vec<_>>().join(",")),
+            Ok(ts) => ts.iter().map(|t| format!("{}@{}:{}", t.content.chars().count(), t.lineno, t.col_begin)).collect::<Vec<_>>().join(","),
+            Err((ts, errs)) => format!("errors={} tokens={}", errs.len(), ts.iter().map(|t| format!("{}@{}:{}", t.content.chars().count(), t.lineno, t.col_begin)).collect::<Vec<_>>().join(",")),
         }
     }""")
             for n, (ob, src) in enumerate(panics):
                 nat.add("p%d" % n, "__lexcols(%s)" % rust_str_lit(src))
             for n, (ob, src) in enumerate(drifts):
-                nat.add("d%d" % n, "__lexcols(%s)" % rust_str_lit(src + " x"))
+                nat.add("d%d" % n, "__lexcols(%s)" % rust_str_lit("a =" + src + " x"))
             res, dt = nat.run()
             for n, (ob, src) in enumerate(panics):
                 got = (res or {}).get("p%d" % n)
@@ -321,16 +398,28 @@ def run(tier, seed, only=None):
                     ob.update(verdict=BROKEN, reason="counterexample did not reproduce natively (%s): %s" % (got[:80], ob["reason"]))
             for n, (ob, src) in enumerate(drifts):
                 got = (res or {}).get("d%d" % n)
-                want = len(src) + 1
-                ob["end_to_end"] = {"source": src + " x", "real lexer (content length @ column per token)": got, "the column of `x` should be": want}
+                full = "a =" + src + " x"
+                lines = full.split("\n")
+                want_x = (len(lines), len(lines[-1]) - 1)            # line and column of the final `x`
+                want_s = (1, 3)                                     # the literal starts on line 1 at column 3
+                ob["end_to_end"] = {"source": full, "real lexer (content length @ line:column per token)": got, "the literal starts at": "1:3", "`x` stands at": "%d:%d" % want_x}
                 if got is None:
                     ob.update(verdict=INCONCLUSIVE, reason="no native replay available: " + ob["reason"])
                     continue
-                m = re.search(r"(?:^|,)1@(\d+)(?:,|$)", got.split("tokens=")[-1])
-                if got.startswith("PANIC") or (m and int(m.group(1)) == want):
+                if got.startswith("PANIC"):
+                    ob.update(verdict=BROKEN, reason="counterexample did not reproduce natively (the lexer panics instead): " + ob["reason"])
+                    continue
+                toks = re.findall(r"(\d+)@(\d+):(\d+)", got.split("tokens=")[-1])
+                if got.startswith("errors=") or len(toks) < 4:
+                    ob.update(verdict=INCONCLUSIVE, reason="the replay source is not lexed into `a`, `=`, a literal and `x` (%s): %s" % (got[:80], ob["reason"]))
+                    continue
+                lit, x = toks[2], [t for t in toks if t[0] == "1"][-1] if toks[-1][0] != "1" else toks[-1]
+                xs = [t for t in toks[3:] if t[0] == "1"]
+                x = xs[0] if xs else None
+                ok_lit = (int(lit[1]), int(lit[2])) == want_s
+                ok_x = x is not None and (int(x[1]), int(x[2])) == want_x
+                if ok_lit and ok_x:
                     ob.update(verdict=BROKEN, reason="counterexample did not reproduce natively (%s): %s" % (got[:80], ob["reason"]))
-                elif not m:
-                    ob.update(verdict=INCONCLUSIVE, reason="the replay could not find the token `x` in %s: %s" % (got[:80], ob["reason"]))
         rep.assumptions += [
             "the literal is on the first line and starts at column 0; the interpolation stack holds SingleLine (a top-level literal); the end of the input follows the k characters",
             "models: String::new / push / push_str, Vec deref / len / push, slice::get / last, Option / Result unwrap (None / Err = panic), Range<i32> iteration, is_ascii_hexdigit, "
